@@ -1279,6 +1279,9 @@ func (client *client) disconnectHandler(dis *packets.Disconnect) *codes.Error {
 			}
 		}
 		if disExpiry != 0 {
+			if max := uint32(client.config.MQTT.SessionExpiry.Seconds()); disExpiry > max {
+				disExpiry = max
+			}
 			err := client.server.sessionStore.SetSessionExpiry(sess.ClientID, disExpiry)
 			if err != nil {
 				zaplog.Error("fail to set session expiry",
